@@ -23,6 +23,13 @@ def path_name(p: 'Obj[Path]') -> 'Str':
     return p.name
 
 
+@opaque
+def unq(url: 'Str') -> 'Str':
+    """the file name a (percent-encoded) relative URL leads to once decoded: urllib.parse.unquote"""
+    import urllib.parse
+    return urllib.parse.unquote(url)
+
+
 @reads('contents', 'name', 'parent', 'kind', 'documentation_location', 'system')
 def pages_of(objs: 'Seq[Ref[Documentable]]', k: 'Int') -> 'Seq[Str]':
     """file names of the pages written for objs[:k]: pre-order, one page per visible object that owns a page,
@@ -33,7 +40,7 @@ def pages_of(objs: 'Seq[Ref[Documentable]]', k: 'Int') -> 'Seq[Str]':
     if not o.isVisible:
         return pages_of(objs, k - 1)
     if o.documentation_location is DocLocation.OWN_PAGE:
-        return pages_of(objs, k - 1) + [o.url] + pages_of(list(o.contents.values()), len(o.contents))
+        return pages_of(objs, k - 1) + [unq(o.url)] + pages_of(list(o.contents.values()), len(o.contents))
     return pages_of(objs, k - 1) + pages_of(list(o.contents.values()), len(o.contents))
 
 
